@@ -55,6 +55,15 @@ CHECKS = {
          "the printed table (warnings stripped) is parsed and compared to the format's precision (6 / 4 significant digits).",
     technique="TLA+ spec (Report.tla over Scoring.tla) evaluated by TLC; expected tables compared with the parsed output of verif.driver.run -type text|csv",
     ref="6/C12"),
+ "C13": dict(
+    text="Cli.tla specifies the vector syntax (Expand with end-point / step / calendar-day lemmas), the option grammar as "
+         "Meaning(set of groups, files) and the two-pass argument loop with --config splicing; TLC checks that the loop refines Meaning "
+         "for every order of up to 2 (quick) / 3 (thorough) option groups, every file position and every command-line/config split, and "
+         "computes -- through Dataset.tla, Scoring.tla and Report.tla -- the table each well-formed option set must print or the "
+         "rejection each malformed one must get; every emitted argv variant is run through verif.driver.run (exit status, error "
+         "message, table, identical output across orders and splits) and every vector string through util.parse_numbers.",
+    technique="TLA+ spec (Cli.tla + Report/Scoring/Dataset) model-checked with TLC: loop refines order-free Meaning; generated command lines replayed into verif.driver.run",
+    ref="6/C13"),
  "C14": dict(
     text="Dataset.tla Adj subtracts/divides the climatology forecast at the same coordinates (exact rationals; zero divisors give "
          "non-finite, hence dropped, cases); TLC enumerates climatologies with their own coverage, order, missing cells and zeros, "
